@@ -68,6 +68,8 @@ class Session:
         self.decryptor: Decryptor
         self.decryptor = None
 
+        self.tls_version = TlsVersion.UNDEFINED
+
         self.handle_packet(packet)
 
         self.application_traffic = []
@@ -297,6 +299,9 @@ class Session:
                 logging.warning(f"Could not decrypt Record: Handshake finished")
             return
 
+        if len(record.binary) == 0:
+            return
+
         match record.binary[0]:
             # client Hello
             case 0x01:
@@ -467,7 +472,8 @@ class Session:
 
             # Alert Record
             case 0x15:
-                self.handle_alert(record.binary[0])
+                if len(record.binary) > 0:
+                    self.handle_alert(record.binary[0])
                 if self.exp_meta:
                     self.application_traffic.append((record.raw, record, isserver))
 
